@@ -22,6 +22,7 @@ STAGE_PROPS = {
     "resolve": {"C01", "C02", "C03"},
     "resolve-timed": {"C01", "C02", "C03", "C05"},
     "balance": {"C01", "C02", "C04"},
+    "balance-timed": {"C01", "C02", "C04", "C05"},   # a junction that belongs to a duration group (row-wise balancing keeps the elapsed time of a cohort)
     "update": {"C01", "C02"},
     "update-timed": {"C01", "C02", "C05"},
     "flush": {"C04", "C01"},
@@ -189,7 +190,7 @@ def compare_trace(ctx, spec, m, net, label):
         if first is not None:
             l = first[0]
             sk = kinds[net["src"][l]]
-            stage = "balance" if sk in "jr" else ("resolve-timed" if (sk == "t" or kinds[net["dst"][l]] == "t") else "resolve")
+            stage = ("balance-timed" if net["nrows"][net["src"][l]] > 1 else "balance") if sk in "jr" else ("resolve-timed" if (sk == "t" or kinds[net["dst"][l]] == "t") else "resolve")
             # junction flows may differ only because upstream flows differ: attribute to the earliest stage that differs
             for l2, (mrow, irow) in enumerate(zip(mfl, impl_fl)):
                 if kinds[net["src"][l2]] not in "jr":
